@@ -3,6 +3,7 @@ Inputs are assembled by the independent encoder (py/blf.py), never by the librar
 import itertools
 import os
 import random
+import struct
 import zlib
 import common
 import blf
@@ -11,8 +12,32 @@ UNKNOWN_TYPES = [0, 26, 27, 28, 52, 53, 108, 116, 117, 132, 255, 256, 0x7fffffff
 UNKNOWN_SIZES = [16, 17, 18, 19, 20, 31, 32, 33, 100, 4095, 4096]
 
 
+_LIN_V1 = None
+
+
+def lin_v1(uid):
+    """LIN_MESSAGE2 in its version-1 layout (164 bytes): a reference image cut to the fields of API version 1, unique id in the time stamp.
+    Its declared size is below the largest layout of its class, which sends the reader through its reposition-after-short-object path."""
+    global _LIN_V1
+    if _LIN_V1 is None:
+        for f in blf.reference_logs():
+            if f.endswith('events_from_binlog/test_LinMessage2.blf'):
+                for ty, img, osz in blf.object_images(blf.load_reference(f)['stream']):
+                    if ty == 57 and osz == 184:
+                        _LIN_V1 = bytearray(img[:164])
+                        struct.pack_into('<I', _LIN_V1, 8, 164)
+                        break
+        if _LIN_V1 is None:
+            raise common.Inconclusive('no LIN_MESSAGE2 reference image found')
+    b = bytearray(_LIN_V1)
+    struct.pack_into('<Q', b, 24, uid)
+    return bytes(b)
+
+
 def known(uid, rnd):
-    """a known object carrying a unique id; alternates CanMessage and AppText (with payload residues 0..3)"""
+    """a known object carrying a unique id; CanMessage, AppText (payload residues 0..3) and, every 5th, a short-layout LinMessage2"""
+    if uid % 5 == 0:
+        return 57, lin_v1(uid)
     if uid % 2:
         img = blf.can_message(uid)
         return 1, img
@@ -61,6 +86,20 @@ def build_cases(tier, seed):
         cs = len(stream) if bi % 5 == 0 else sweep[bi % len(sweep)]
         cases.append(('fillers[%d..%d] other=%r cs=%d' % (i, i + len(fs), other, cs), stream, exp, cs, 'filler'))
         bi += 1
+    # the stream ENDS with filler after the last known object (partial signatures, lone bytes): everything before must arrive and the read must end
+    ntail = 0
+    for tail in [b'L', b'LO', b'LOB', b'\0\0\0L', b'\0\0LO', b'\0LOB', b'xL', b'xxLO', b'xxxLOB', b'LLLL', b'LOLO', b'LOBLOB', b'\0', b'\0\0\0', b'x' * 5, b'LOBJ'[:3] * 3]:
+        for cs in (0, 7, 16):
+            stream = b''
+            exp = []
+            for k in range(3):
+                t, img = known(uid, rnd)
+                stream += img
+                exp.append((t, uid, zlib.crc32(img)))
+                uid += 1
+            stream += tail
+            cases.append(('trailing filler %r cs=%d' % (tail, cs or len(stream)), stream, exp, cs or len(stream), 'tail'))
+            ntail += 1
     # unknown objects: every type x size, bodies arbitrary / containing a complete fake object, with and without pad zeros after
     nunk = 0
     for ty in UNKNOWN_TYPES:
@@ -98,7 +137,7 @@ def build_cases(tier, seed):
                     cs = rnd.choice([len(stream), 64, 100, 1000, 5000])
                 cases.append(('unknown type=%d size=%d %s%s cs=%d' % (ty, size, sub, ' padded' if padded else '', cs), stream, exp, cs, 'unknown'))
                 nunk += 1
-    return cases, nexh, len(fillers) - nexh, nunk
+    return cases, nexh, len(fillers) - nexh, nunk + ntail
 
 
 def run(tier, replay=None):
@@ -144,9 +183,9 @@ def run(tier, replay=None):
             while k < len(got) and k < len(want) and got[k] == want[k]:
                 k += 1
             flags = [g for g in got if g.startswith('!')]
-            if kind == 'filler':
+            if kind in ('filler', 'tail'):
                 # which filler precedes the first missing object
-                key = 'filler:neighbour-lost' if not flags else 'filler:' + flags[0]
+                key = kind + ':neighbour-lost' if not flags else kind + ':' + flags[0]
             else:
                 key = 'unknown:neighbour-lost:' + desc.split()[3] if not flags else 'unknown:' + flags[0]
             res.violation(key, '%s: delivered %d objects, expected %d; first difference at object %d (got %s, want %s)' % (
